@@ -41,6 +41,10 @@ class SimCrash(BaseException):
     """Process death injected by the simulator"""
 
 
+class StopSweep(BaseException):
+    """Planned end of a truncated sweep (not a fault)"""
+
+
 class BudgetExceeded(BaseException):
     """Deterministic step budget exceeded (stands in for a hang)"""
 
@@ -258,6 +262,8 @@ class Sim(object):
         self._saved = []
         self.record_state = record_state
         self.max_planes = 200000
+        self.stop_tick = None
+        self.truncated = False
         self.klog = {}
         self.state_log = []      # per tick list of per-asm state digests
         self._asm_cursor = None
@@ -324,6 +330,8 @@ class Sim(object):
         def axial_step(rx, z, dz, step, verbose=False):
             sim.tick = step
             sim.reactor = rx
+            if sim.stop_tick is not None and step > sim.stop_tick:
+                raise StopSweep()
             if sim.plan.crash_tick is not None \
                     and step == sim.plan.crash_tick:
                 sim.fire('crash.tick')
@@ -449,15 +457,31 @@ class Sim(object):
         self._patch(MT, 'update', mt_update)
         return self
 
-    def __exit__(self, et, ev, tb):
+    def _unpatch(self):
         for obj, name, old, had in reversed(self._saved):
             if had:
                 setattr(obj, name, old)
             else:
                 delattr(obj, name)
+
+    def __exit__(self, et, ev, tb):
+        self._unpatch()
         self._saved = []
         _ACTIVE[0] = None
         return False
+
+    @contextlib.contextmanager
+    def paused(self):
+        """Temporarily remove every seam (the shipped methods run), e.g. to
+        execute probe steps on copies of the reactor"""
+        current = [(obj, name, obj.__dict__.get(name))
+                   for obj, name, old, had in self._saved]
+        self._unpatch()
+        try:
+            yield
+        finally:
+            for obj, name, cur in current:
+                setattr(obj, name, cur)
 
     def finish(self, r):
         for m in self.monitors:
@@ -563,7 +587,8 @@ class Exec(object):
 
 
 def execute(spec, dirpath, plan=None, monitors=(), max_ticks=4000,
-            record_state=False, timestep=0, min_ticks=1, **kw):
+            record_state=False, timestep=0, min_ticks=1, truncate=None,
+            **kw):
     """Build and sweep one world under the given plan with the monitors
     attached.  Everything that is not a completed sweep is a discard with a
     reason; crashes of DASSH itself are C18 matters."""
@@ -578,9 +603,15 @@ def execute(spec, dirpath, plan=None, monitors=(), max_ticks=4000,
         except BudgetExceeded:
             return Exec('discard', S, reason='mesh_budget')
         if len(r.dz) > max_ticks:
-            return Exec('discard', S, r, inp, reason='too_many_ticks')
+            if truncate is None:
+                return Exec('discard', S, r, inp, reason='too_many_ticks')
+            S.stop_tick = int(truncate)
         try:
             r.temperature_sweep()
+        except StopSweep:
+            S.truncated = True
+            S.finish(r)
+            return Exec('ok', S, r, inp)
         except SystemExit:
             return Exec('discard', S, r, inp, reason='sweep_exit')
         except (SimCrash, BudgetExceeded):
